@@ -624,6 +624,9 @@ func (c *VirtualTable) Update(ctx context.Context, key interface{}, values map[i
 		colName := c.ColumnNameByIndex[i]
 		new.ColumnValues[colName] = ToColumnValue(v)
 	}
+	// An UPDATE is neither an INSERT nor a DELETE, so it keeps the row's
+	// insert/delete time; otherwise it would outrank a concurrent DELETE.
+	new.DeleteUpdateOffset = durationpb.New(ot.Add(old.DeleteUpdateOffset.AsDuration()).Sub(t))
 	merged := MergeRows(key, ot, old, t, &new, t)
 	err = c.Tree.Root.Set(ctx, t, NewKey(key), merged)
 	if err != nil {
